@@ -190,3 +190,34 @@ pub fn qml_string_literal(s: &str, style: u32) -> String {
     out.push('"');
     out
 }
+
+/// Path of the `qmluic` CLI binary built from /repo's *current working tree* (release profile) into a target
+/// directory under /verif/.work.  Built at most once per process; an exclusive file lock serialises concurrent
+/// checks.  Panics (→ the stream fails, the check reports it) if the build fails.
+pub fn cli_binary() -> std::path::PathBuf {
+    use std::sync::OnceLock;
+    static BIN: OnceLock<std::path::PathBuf> = OnceLock::new();
+    BIN.get_or_init(|| {
+        if let Ok(p) = std::env::var("QV_QMLUIC_BIN") {
+            return std::path::PathBuf::from(p);
+        }
+        let work = std::path::Path::new(env!("CARGO_MANIFEST_DIR")).join("../.work");
+        std::fs::create_dir_all(&work).unwrap();
+        let target = work.join("cli-target");
+        // serialise with other checks through `flock` (util-linux) so that no extra crate is needed
+        let status = std::process::Command::new("flock")
+            .arg(work.join("cli-build.lock"))
+            .args(["cargo", "build", "--release", "--offline", "--bin", "qmluic", "--manifest-path"])
+            .arg(format!("{REPO}/Cargo.toml"))
+            .arg("--target-dir")
+            .arg(&target)
+            .env("CARGO_NET_OFFLINE", "true")
+            .stdout(std::process::Stdio::null())
+            .stderr(std::process::Stdio::null())
+            .status()
+            .expect("cargo build of the qmluic CLI could not be started");
+        assert!(status.success(), "cargo build of the qmluic CLI failed");
+        target.join("release/qmluic")
+    })
+    .clone()
+}
